@@ -209,7 +209,8 @@ def gen_case(rng):
                              # a future of the target that was already resolved when the target was closed
                              rng.choice(['coro', 'donefut']) if mode == 'closed' else 'coro'),
                     'start': rng.choice([0, 0, 1, 2])})
-    return {'mode': mode, 'aws': aws}
+    # the stop function of loop_in_thread called by two threads at once: each call returns only once the loop stopped
+    return {'mode': mode, 'aws': aws, 'stop2': mode == 'forever' and rng.random() < 0.5}
 
 
 def run_case(case, seed, pct=0, choices=None):
@@ -316,6 +317,11 @@ def run_case(case, seed, pct=0, choices=None):
             S.spawn(f'C{c}', caller(c, spec))
         S.point('manager.wait', enabled=lambda: all(not S.threads[f'C{c}']['alive'] for c in range(len(case['aws']))))
         if stop is not None:
+            if case.get('stop2'):
+                def second():
+                    stop()
+                    res['lit_running_after_stop2'] = BLoop.is_running(T)
+                S.spawn('M2', second)
             E.labels.append('stop')
             stop()
             res['lit_running_after_stop'] = BLoop.is_running(T)
@@ -369,6 +375,9 @@ def judge(case, r):
             bad.append(('handshake', 'loop_in_thread returned before the loop was running', {}))
         if r['res'].get('lit_running_after_stop') is True:
             bad.append(('handshake', 'the stop function returned while the loop was still running', {}))
+        if r['res'].get('lit_running_after_stop2') is True:
+            bad.append(('handshake', 'the stop function, called by a second thread while the first call was in '
+                                     'progress, returned while the loop was still running', {}))
     if r['hung']:
         pending = [c for c in range(len(case['aws'])) if c not in r['res']]
         proxied = [c for c in pending if f'sch:{c}' in r['labels']]
